@@ -185,4 +185,244 @@ theorem removeIter_loop1_spec (A : Arr) (it : Option P) (b e : Nat) :
         rw [e4 b' hb']
         simp [upd_ne _ _ _ _ hb']
 
+/-- the destructor loop of `clear()` -/
+theorem clear_loop1_spec (A : Arr)  (b e : Nat) :
+    ∀ (k i fuel : Nat) (M : Mem) (cs : Cells), i + k = e → k < fuel → M.blocks b = some cs →
+      (destroyRange cs i k = none → SeqArr.clear_loop1 fuel M A (some (b, i)) (some (b, e)) = none) ∧
+      (∀ cs', destroyRange cs i k = some cs' → ∃ M',
+        SeqArr.clear_loop1 fuel M A (some (b, i)) (some (b, e)) = some (M', A, some (b, e), some (b, e)) ∧
+        M'.blocks b = some cs' ∧ M'.brk = M.brk ∧ ∀ b', b' ≠ b → M'.blocks b' = M.blocks b') := by
+  intro k
+  induction k with
+  | zero =>
+    intro i fuel M cs hik hf hb
+    obtain ⟨f, rfl⟩ : ∃ f, fuel = f + 1 := ⟨fuel - 1, by omega⟩
+    have : i = e := by omega
+    subst this
+    simp only [destroyRange, SeqArr.clear_loop1, pne_off]
+    simp
+    exact hb
+  | succ k ih =>
+    intro i fuel M cs hik hf hb
+    obtain ⟨f, rfl⟩ : ∃ f, fuel = f + 1 := ⟨fuel - 1, by omega⟩
+    have hin : i ≠ e := by omega
+    simp only [destroyRange, SeqArr.clear_loop1, pne_off, hin, ne_eq, not_false_eq_true, decide_true, if_true,
+      des_at M b i cs hb]
+    cases hd : destroy cs i with
+    | none => simp
+    | some cs1 =>
+      simp only [Option.map_some, padd]
+      have h2 := ih (i + 1) f { M with blocks := upd M.blocks b (some cs1) } cs1 (by omega) (by omega) (by simp [upd_same])
+      refine ⟨fun hn => h2.1 hn, fun cs' hn => ?_⟩
+      obtain ⟨M', e1, e2, e3, e4⟩ := h2.2 cs' hn
+      refine ⟨M', e1, e2, e3, ?_⟩
+      intro b' hb'
+      rw [e4 b' hb']
+      simp [upd_ne _ _ _ _ hb']
+
+/-- the destructor loop of the shrinking `resize` -/
+theorem resize_loop1_spec (A : Arr) (sz : Nat) (va : Option P) (os : Nat) (ne : Option P) (b e : Nat) :
+    ∀ (k i fuel : Nat) (M : Mem) (cs : Cells), i + k = e → k < fuel → M.blocks b = some cs →
+      (destroyRange cs i k = none → SeqArr.resize_loop1 fuel M A sz va os ne (some (b, i)) (some (b, e)) = none) ∧
+      (∀ cs', destroyRange cs i k = some cs' → ∃ M',
+        SeqArr.resize_loop1 fuel M A sz va os ne (some (b, i)) (some (b, e)) = some (M', A, sz, va, os, ne, some (b, e), some (b, e)) ∧
+        M'.blocks b = some cs' ∧ M'.brk = M.brk ∧ ∀ b', b' ≠ b → M'.blocks b' = M.blocks b') := by
+  intro k
+  induction k with
+  | zero =>
+    intro i fuel M cs hik hf hb
+    obtain ⟨f, rfl⟩ : ∃ f, fuel = f + 1 := ⟨fuel - 1, by omega⟩
+    have : i = e := by omega
+    subst this
+    simp only [destroyRange, SeqArr.resize_loop1, pne_off]
+    simp
+    exact hb
+  | succ k ih =>
+    intro i fuel M cs hik hf hb
+    obtain ⟨f, rfl⟩ : ∃ f, fuel = f + 1 := ⟨fuel - 1, by omega⟩
+    have hin : i ≠ e := by omega
+    simp only [destroyRange, SeqArr.resize_loop1, pne_off, hin, ne_eq, not_false_eq_true, decide_true, if_true,
+      des_at M b i cs hb]
+    cases hd : destroy cs i with
+    | none => simp
+    | some cs1 =>
+      simp only [Option.map_some, padd]
+      have h2 := ih (i + 1) f { M with blocks := upd M.blocks b (some cs1) } cs1 (by omega) (by omega) (by simp [upd_same])
+      refine ⟨fun hn => h2.1 hn, fun cs' hn => ?_⟩
+      obtain ⟨M', e1, e2, e3, e4⟩ := h2.2 cs' hn
+      refine ⟨M', e1, e2, e3, ?_⟩
+      intro b' hb'
+      rw [e4 b' hb']
+      simp [upd_ne _ _ _ _ hb']
+
+/-- the fill loop of the growing `resize` with `src` pointing to a constructed element `x` of another allocation -/
+theorem resize_loop2_ext (A : Arr) (sz : Nat) (va : Option P) (os : Nat) (b e bv j : Nat) (x : Int) (hne : bv ≠ b) :
+    ∀ (k i fuel : Nat) (M : Mem) (cs vcs : Cells), i + k = e → k < fuel → M.blocks b = some cs →
+      M.blocks bv = some vcs → readCell vcs j = some x →
+      (fillFrom cs i (List.replicate k x) = none →
+        SeqArr.resize_loop2 fuel M A sz va os (some (bv, j)) (some (b, e)) (some (b, i)) = none) ∧
+      (∀ cs', fillFrom cs i (List.replicate k x) = some cs' → ∃ M',
+        SeqArr.resize_loop2 fuel M A sz va os (some (bv, j)) (some (b, e)) (some (b, i)) =
+          some (M', A, sz, va, os, some (bv, j), some (b, e), some (b, e)) ∧
+        M'.blocks b = some cs' ∧ M'.brk = M.brk ∧ ∀ b', b' ≠ b → M'.blocks b' = M.blocks b') := by
+  intro k
+  induction k with
+  | zero =>
+    intro i fuel M cs vcs hik hf hb hv hx
+    obtain ⟨f, rfl⟩ : ∃ f, fuel = f + 1 := ⟨fuel - 1, by omega⟩
+    have : i = e := by omega
+    subst this
+    simp only [List.replicate, fillFrom, SeqArr.resize_loop2, pne_off]
+    simp
+    exact hb
+  | succ k ih =>
+    intro i fuel M cs vcs hik hf hb hv hx
+    obtain ⟨f, rfl⟩ : ∃ f, fuel = f + 1 := ⟨fuel - 1, by omega⟩
+    have hin : i ≠ e := by omega
+    simp only [List.replicate, fillFrom, SeqArr.resize_loop2, pne_off, hin, ne_eq, not_false_eq_true, decide_true, if_true,
+      rd_at M bv j vcs hv, hx, con_at M b i cs x hb]
+    cases hc : construct cs i x with
+    | none => simp
+    | some cs1 =>
+      simp only [Option.map_some, padd]
+      have h2 := ih (i + 1) f { M with blocks := upd M.blocks b (some cs1) } cs1 vcs (by omega) (by omega) (by simp [upd_same])
+        (by simp [upd_ne _ _ _ _ hne, hv]) hx
+      refine ⟨fun hn => h2.1 hn, fun cs' hn => ?_⟩
+      obtain ⟨M', e1, e2, e3, e4⟩ := h2.2 cs' hn
+      refine ⟨M', e1, e2, e3, ?_⟩
+      intro b' hb'
+      rw [e4 b' hb']
+      simp [upd_ne _ _ _ _ hb']
+
+/-- … and with `src` pointing to element `j` of the array's own (new) block: the model's `fillRefLoop` -/
+theorem resize_loop2_alias (A : Arr) (sz : Nat) (va : Option P) (os : Nat) (b e j : Nat) :
+    ∀ (k i fuel : Nat) (M : Mem) (cs : Cells), i + k = e → k < fuel → M.blocks b = some cs →
+      (fillRefLoop cs i j k = none →
+        SeqArr.resize_loop2 fuel M A sz va os (some (b, j)) (some (b, e)) (some (b, i)) = none) ∧
+      (∀ cs', fillRefLoop cs i j k = some cs' → ∃ M',
+        SeqArr.resize_loop2 fuel M A sz va os (some (b, j)) (some (b, e)) (some (b, i)) =
+          some (M', A, sz, va, os, some (b, j), some (b, e), some (b, e)) ∧
+        M'.blocks b = some cs' ∧ M'.brk = M.brk ∧ ∀ b', b' ≠ b → M'.blocks b' = M.blocks b') := by
+  intro k
+  induction k with
+  | zero =>
+    intro i fuel M cs hik hf hb
+    obtain ⟨f, rfl⟩ : ∃ f, fuel = f + 1 := ⟨fuel - 1, by omega⟩
+    have : i = e := by omega
+    subst this
+    simp only [fillRefLoop, SeqArr.resize_loop2, pne_off]
+    simp
+    exact hb
+  | succ k ih =>
+    intro i fuel M cs hik hf hb
+    obtain ⟨f, rfl⟩ : ∃ f, fuel = f + 1 := ⟨fuel - 1, by omega⟩
+    have hin : i ≠ e := by omega
+    simp only [fillRefLoop, SeqArr.resize_loop2, pne_off, hin, ne_eq, not_false_eq_true, decide_true, if_true,
+      rd_at M b j cs hb]
+    cases hr : readCell cs j with
+    | none => simp
+    | some v =>
+      simp only [con_at M b i cs v hb]
+      cases hc : construct cs i v with
+      | none => simp
+      | some cs1 =>
+        simp only [Option.map_some, padd]
+        have h2 := ih (i + 1) f { M with blocks := upd M.blocks b (some cs1) } cs1 (by omega) (by omega) (by simp [upd_same])
+        refine ⟨fun hn => h2.1 hn, fun cs' hn => ?_⟩
+        obtain ⟨M', e1, e2, e3, e4⟩ := h2.2 cs' hn
+        refine ⟨M', e1, e2, e3, ?_⟩
+        intro b' hb'
+        rw [e4 b' hb']
+        simp [upd_ne _ _ _ _ hb']
+
+/-- the copy loop of `append(const T* values, usize size)` with `values` pointing to the constructed elements `xs` of
+    another allocation -/
+theorem appendPtr_loop1_ext (A : Arr) (sz os : Nat) (b bv : Nat) (hne : bv ≠ b) :
+    ∀ (xs : List Int) (i j e fuel : Nat) (M : Mem) (cs vcs : Cells), i + xs.length = e → xs.length < fuel →
+      M.blocks b = some cs → M.blocks bv = some vcs → (∀ t (ht : t < xs.length), readCell vcs (j + t) = some xs[t]) →
+      (fillFrom cs i xs = none →
+        SeqArr.appendPtr_loop1 fuel M A (some (bv, j)) sz os (some (b, i)) (some (b, e)) = none) ∧
+      (∀ cs', fillFrom cs i xs = some cs' → ∃ M',
+        SeqArr.appendPtr_loop1 fuel M A (some (bv, j)) sz os (some (b, i)) (some (b, e)) =
+          some (M', A, some (bv, j + xs.length), sz, os, some (b, e), some (b, e)) ∧
+        M'.blocks b = some cs' ∧ M'.brk = M.brk ∧ ∀ b', b' ≠ b → M'.blocks b' = M.blocks b') := by
+  intro xs
+  induction xs with
+  | nil =>
+    intro i j e fuel M cs vcs hik hf hb hv hx
+    obtain ⟨f, rfl⟩ : ∃ f, fuel = f + 1 := ⟨fuel - 1, by omega⟩
+    have : i = e := by simpa using hik
+    subst this
+    simp only [fillFrom, SeqArr.appendPtr_loop1, plt_off]
+    simp
+    exact hb
+  | cons x xs ih =>
+    intro i j e fuel M cs vcs hik hf hb hv hx
+    simp only [List.length_cons] at hik hf
+    obtain ⟨f, rfl⟩ : ∃ f, fuel = f + 1 := ⟨fuel - 1, by omega⟩
+    have hlt : i < e := by omega
+    have hx0 : readCell vcs j = some x := by
+      have := hx 0 (by simp)
+      simpa only [Nat.add_zero, List.getElem_cons_zero] using this
+    simp only [fillFrom, SeqArr.appendPtr_loop1, plt_off, hlt, decide_true, if_true, rd_at M bv j vcs hv, hx0,
+      con_at M b i cs x hb]
+    cases hc : construct cs i x with
+    | none => simp
+    | some cs1 =>
+      simp only [Option.map_some, padd]
+      have h2 := ih (i + 1) (j + 1) e f { M with blocks := upd M.blocks b (some cs1) } cs1 vcs (by omega) (by omega)
+        (by simp [upd_same]) (by simp [upd_ne _ _ _ _ hne, hv])
+        (by intro t ht
+            have := hx (t + 1) (by simp; omega)
+            simpa [Nat.add_assoc, Nat.add_comm 1 t] using this)
+      refine ⟨fun hn => h2.1 hn, fun cs' hn => ?_⟩
+      obtain ⟨M', e1, e2, e3, e4⟩ := h2.2 cs' hn
+      refine ⟨M', ?_, e2, e3, ?_⟩
+      · rw [e1]; simp [Nat.add_assoc, Nat.add_comm 1 xs.length]
+      · intro b' hb'
+        rw [e4 b' hb']
+        simp [upd_ne _ _ _ _ hb']
+
+/-- … and with `values` pointing to element `j` of the array's own (new) block: the model's `selfCopyLoop` -/
+theorem appendPtr_loop1_alias (A : Arr) (sz os : Nat) (b e : Nat) :
+    ∀ (k i j fuel : Nat) (M : Mem) (cs : Cells), i + k = e → k < fuel → M.blocks b = some cs →
+      (selfCopyLoop cs i j k = none →
+        SeqArr.appendPtr_loop1 fuel M A (some (b, j)) sz os (some (b, i)) (some (b, e)) = none) ∧
+      (∀ cs', selfCopyLoop cs i j k = some cs' → ∃ M',
+        SeqArr.appendPtr_loop1 fuel M A (some (b, j)) sz os (some (b, i)) (some (b, e)) =
+          some (M', A, some (b, j + k), sz, os, some (b, e), some (b, e)) ∧
+        M'.blocks b = some cs' ∧ M'.brk = M.brk ∧ ∀ b', b' ≠ b → M'.blocks b' = M.blocks b') := by
+  intro k
+  induction k with
+  | zero =>
+    intro i j fuel M cs hik hf hb
+    obtain ⟨f, rfl⟩ : ∃ f, fuel = f + 1 := ⟨fuel - 1, by omega⟩
+    have : i = e := by omega
+    subst this
+    simp only [selfCopyLoop, SeqArr.appendPtr_loop1, plt_off]
+    simp
+    exact hb
+  | succ k ih =>
+    intro i j fuel M cs hik hf hb
+    obtain ⟨f, rfl⟩ : ∃ f, fuel = f + 1 := ⟨fuel - 1, by omega⟩
+    have hlt : i < e := by omega
+    simp only [selfCopyLoop, SeqArr.appendPtr_loop1, plt_off, hlt, decide_true, if_true, rd_at M b j cs hb]
+    cases hr : readCell cs j with
+    | none => simp
+    | some v =>
+      simp only [con_at M b i cs v hb]
+      cases hc : construct cs i v with
+      | none => simp
+      | some cs1 =>
+        simp only [Option.map_some, padd]
+        have h2 := ih (i + 1) (j + 1) f { M with blocks := upd M.blocks b (some cs1) } cs1 (by omega) (by omega)
+          (by simp [upd_same])
+        refine ⟨fun hn => h2.1 hn, fun cs' hn => ?_⟩
+        obtain ⟨M', e1, e2, e3, e4⟩ := h2.2 cs' hn
+        refine ⟨M', ?_, e2, e3, ?_⟩
+        · rw [e1]; simp [Nat.add_assoc, Nat.add_comm 1 k]
+        · intro b' hb'
+          rw [e4 b' hb']
+          simp [upd_ne _ _ _ _ hb']
+
 end Nstd.Seq.AM
